@@ -79,6 +79,7 @@ func WithCacheMetrics(metrics *CacheMetrics) LRUCacheOption {
 func (c *LRUCache) Get(key uint64) (*roaring.Bitmap, bool) {
 	c.mtx.Lock()
 	defer c.mtx.Unlock()
+	verifPoint("lru.get", key)
 
 	if c.metrics.GetCall != nil {
 		c.metrics.GetCall.Inc()
@@ -109,6 +110,7 @@ func (c *LRUCache) Get(key uint64) (*roaring.Bitmap, bool) {
 func (c *LRUCache) Put(key uint64, bm *roaring.Bitmap) {
 	c.mtx.Lock()
 	defer c.mtx.Unlock()
+	verifPoint("lru.put", key)
 
 	if c.metrics.PutCall != nil {
 		c.metrics.PutCall.Inc()
